@@ -55,7 +55,9 @@ def run(v, tier, replay):
     v.cov["programs_run"] = len(progs); v.cov["calls_recorded"] = sum(1 for e in events if e["ev"] == "call")
     for k, p in progs.items():
         v.case((p["a"], p["b"], p["a2"], p["loss"], p["tmo"], k[0]))
-    v.sample(list(progs.values())[0]); v.sample([e for e in events if e["ev"] == "call"][0]); v.sample([e for e in events if e["ev"] == "leak"][0])
+    for lst in (list(progs.values()), [e for e in events if e["ev"] == "call"], [e for e in events if e["ev"] == "leak"]):
+        if lst:
+            v.sample(lst[0])
     seen = set()
     for m in re.finditer(r'<<"MISMATCH", (\d+)>>', r.out):
         e = events[int(m.group(1)) - 1]
@@ -68,10 +70,13 @@ def run(v, tier, replay):
             ctx = "A=[%s]%s B=[%s] loss=%s timeout=%sms" % (p.get("a"), "+[" + p["a2"] + "]" if p.get("a2") else "", p.get("b"), e["loss"], e["tmo"])
             if e["op"] == "wait" and e["ret"] == "no":
                 sig = "WaitForClose pending after 12 s (%s; own muxer stopped: %s; peer muxer stopped: %s; data timeout %s ms) | %s" % ("network loses frames: " + e["loss"] if e["loss"] != "none" else "faithful network", e.get("ownstop"), e.get("peerstop"), e["tmo"], ctx)
+            elif e["op"] in ("stop", "finalstop") and e["ret"] == "yes" and e.get("tclosed") == "no":
+                sig = "Stop returned to a caller on end %s before the shutdown had completed (transport still open) | %s" % (e["end"], ctx)
             elif e["op"] == "postclose":
-                sig = "after a completed local close: write fails=%s, reads end with end-of-stream=%s | %s" % (e["wfail"], e["reof"], ctx)
+                sig = "after a completed local close (%s tube): write fails=%s, reads end with end-of-stream=%s, buffered data returned first=%s (peer wrote %s, read %s) | %s" % (e.get("kind"), e["wfail"], e["reof"], e.get("dataok"), e.get("peerwrote"), e.get("got"), ctx)
             else:
-                sig = "%s on end %s: returned=%s after %s ms (%s) | %s" % (e["op"], e["end"], e["ret"], e["ms"], e["res"], ctx)
+                sig = "%s on end %s: returned=%s after %s ms (%s; %s) | %s" % (e["op"], e["end"], e["ret"], e["ms"], e["res"],
+                      "initiation of this end's tube completed" if e["end"] == "B" or e.get("ainit") == "yes" else "the answer to this end's tube request was never delivered", ctx)
         key = re.sub(r" \| .*", "", sig)
         if key in seen:
             continue
